@@ -1,8 +1,418 @@
-//! C13 — stub, to be written.
+//! C13 — summary figures equal what their parts imply, at every level.
+//!
+//! For every generated result set the six real writers (`output_lcov`, `output_covdir`,
+//! `output_cobertura`, `output_markdown`, `output_activedata_etl`, `output_html`) run in-process
+//! and write into the work directory; their output is decoded by independent readers
+//! (decode.rs) into (covered, total, printed rate) records; the property oracle (obs.rs) is
+//! evaluated on those records; and the same result set goes through the Lean model `gm_c13`
+//! whose answer (exact integers, exact rational rates) is compared figure by figure – integers
+//! exactly, printed rates within the precision the format prints.
 use corrlib::*;
+use serde_json::json;
+use std::collections::BTreeMap;
 
-pub fn run(_rep: &mut Report) {}
-pub fn replay(_rep: &mut Report, _case: &serde_json::Value) {}
+mod decode;
+mod gen;
+mod obs;
+use decode::Fig;
+use gen::*;
+use obs::*;
+
+// ---------------------------------------------------------------------------------------------
+// model answer vs implementation answer
+
+fn key_of(tok: &str) -> &str {
+    tok.split('=').next().unwrap_or(tok)
+}
+
+/// keep the first `n` comma-separated values of `key=v1,v2,…`
+fn trim_values(tok: &str, n: usize) -> String {
+    match tok.split_once('=') {
+        Some((k, v)) => format!("{}={}", k, v.split(',').take(n).collect::<Vec<_>>().join(",")),
+        None => tok.to_string(),
+    }
+}
+
+fn atoms(tok: &str) -> Vec<&str> {
+    tok.split(|c| c == ',' || c == '|' || c == ':' || c == '=').collect()
+}
+
+/// None = the answers agree
+fn agree(writer: &str, model: &str, imp: &str, case: &Case) -> Option<String> {
+    if model == "panic" {
+        return if imp.starts_with("panic") { None } else { Some("the model panics, the writer returns".into()) };
+    }
+    if !imp.starts_with("ok") {
+        return Some(format!("the writer's outcome is {:?}, the model returns", imp.split(' ').next().unwrap_or("")));
+    }
+    if !model.starts_with("ok") {
+        return Some(format!("model answer {:?}", model));
+    }
+    let mut m: Vec<String> = model.split(' ').skip(1).map(|s| s.to_string()).collect();
+    let mut i: Vec<String> = imp.split(' ').skip(1).map(|s| s.to_string()).collect();
+    if writer == "html" && !case.branch {
+        for t in m.iter_mut() {
+            if !(t.starts_with("K=") || t.starts_with("B=") || t.starts_with("J=")) {
+                *t = trim_values(t, 6);
+            }
+        }
+    }
+    let fixed = match writer {
+        "covdir" => 1,
+        "html" => 4,
+        _ => usize::MAX,
+    };
+    if fixed < m.len() {
+        m[fixed..].sort_by(|a, b| key_of(a).cmp(key_of(b)));
+    }
+    if fixed < i.len() {
+        i[fixed..].sort_by(|a, b| key_of(a).cmp(key_of(b)));
+    }
+    if m.len() != i.len() {
+        return Some(format!("{} figures groups in the model answer, {} in the report", m.len(), i.len()));
+    }
+    let tol = tol_of(writer, case.precision);
+    for (mt, it) in m.iter().zip(i.iter()) {
+        let (ma, ia) = (atoms(mt), atoms(it));
+        if ma.len() != ia.len() {
+            return Some(format!("model {:?} vs report {:?}", mt, it));
+        }
+        for (x, y) in ma.iter().zip(ia.iter()) {
+            if let Some((prefix, printed)) = y.split_once('~') {
+                // a one-letter tag (P, C, F, O, …) may precede the figure
+                let Some(x) = x.strip_prefix(prefix) else {
+                    return Some(format!("model {:?} vs report {:?}", mt, it));
+                };
+                let (n, d) = match x.split_once('/') {
+                    Some((n, d)) => (n.parse::<u128>().unwrap_or(0), d.parse::<u128>().unwrap_or(0)),
+                    None => return Some(format!("model {:?} vs report {:?}", mt, it)),
+                };
+                let fig = Fig(printed.to_string());
+                let ok = if d == 0 { fig.value().is_none() } else { close(&fig, n, d, tol) };
+                if !ok {
+                    return Some(format!("rate: model {} vs printed {:?} in {:?} / {:?}", x, printed, mt, it));
+                }
+            } else if x != y {
+                // the badge truncates a float: 100·c/t computed in f64 may fall just below an
+                // integer that the exact value reaches
+                if mt.starts_with("B=") {
+                    if let (Ok(a), Ok(b)) = (x.parse::<u64>(), y.parse::<u64>()) {
+                        if b + 1 == a {
+                            continue;
+                        }
+                    }
+                }
+                return Some(format!("model {:?} vs report {:?}", mt, it));
+            }
+        }
+    }
+    None
+}
+
+// ---------------------------------------------------------------------------------------------
+// shrinking
+
+fn shrink(case: &Case, fails: &mut dyn FnMut(&Case) -> bool) -> Case {
+    let mut cur = case.clone();
+    let mut budget = 250;
+    let mut progress = true;
+    while progress && budget > 0 {
+        progress = false;
+        // drop files
+        let mut k = 0;
+        while k < cur.files.len() && budget > 0 {
+            let mut c = cur.clone();
+            c.files.remove(k);
+            budget -= 1;
+            if fails(&c) {
+                cur = c;
+                progress = true;
+            } else {
+                k += 1;
+            }
+        }
+        // simplify records
+        for k in 0..cur.files.len() {
+            let lines: Vec<u32> = cur.files[k].cov.lines.keys().cloned().collect();
+            for l in lines {
+                if budget == 0 {
+                    break;
+                }
+                let mut c = cur.clone();
+                c.files[k].cov.lines.remove(&l);
+                budget -= 1;
+                if fails(&c) {
+                    cur = c;
+                    progress = true;
+                }
+            }
+            let brs: Vec<u32> = cur.files[k].cov.branches.keys().cloned().collect();
+            for l in brs {
+                if budget == 0 {
+                    break;
+                }
+                let mut c = cur.clone();
+                c.files[k].cov.branches.remove(&l);
+                budget -= 1;
+                if fails(&c) {
+                    cur = c;
+                    progress = true;
+                }
+            }
+            let fns: Vec<String> = cur.files[k].cov.functions.keys().cloned().collect();
+            for n in fns {
+                if budget == 0 {
+                    break;
+                }
+                let mut c = cur.clone();
+                c.files[k].cov.functions.remove(&n);
+                budget -= 1;
+                if fails(&c) {
+                    cur = c;
+                    progress = true;
+                }
+            }
+        }
+        // flatten the path
+        for k in 0..cur.files.len() {
+            if budget == 0 {
+                break;
+            }
+            if let Some((_, name)) = cur.files[k].rel.clone().rsplit_once('/') {
+                if !cur.files.iter().any(|f| f.rel == name) {
+                    let mut c = cur.clone();
+                    c.files[k].rel = name.to_string();
+                    budget -= 1;
+                    if fails(&c) {
+                        cur = c;
+                        progress = true;
+                    }
+                }
+            }
+        }
+    }
+    cur
+}
+
+// ---------------------------------------------------------------------------------------------
+
+struct Ctx {
+    env: Env,
+    /// how many failures were already shrunk per (writer, finding)
+    shrunk: BTreeMap<String, u32>,
+}
+
+fn report_ofails(rep: &mut Report, ctx: &mut Ctx, case: &Case, writer: &str, ofails: &[OFail], do_shrink: bool) {
+    let mut seen: Vec<Option<&'static str>> = vec![];
+    for f in ofails {
+        if seen.contains(&f.finding) {
+            continue;
+        }
+        seen.push(f.finding);
+        let key = format!("{}/{:?}", writer, f.finding);
+        let n = ctx.shrunk.entry(key).or_insert(0);
+        let mut what = f.what.clone();
+        let mut min = case.clone();
+        if do_shrink && *n < 2 {
+            *n += 1;
+            let finding = f.finding;
+            let env = &ctx.env;
+            min = shrink(case, &mut |c: &Case| observe(env, c, writer).ofails.iter().any(|g| g.finding == finding));
+            if let Some(g) = observe(env, &min, writer).ofails.iter().find(|g| g.finding == finding) {
+                what = g.what.clone();
+            }
+        }
+        if let Some(id) = f.finding {
+            rep.count(&format!("finding.{}", id));
+        }
+        rep.fail("oracle", f.finding, what, case_json(&min, writer));
+    }
+}
+
+fn disagreement(rep: &mut Report, ctx: &mut Ctx, case: &Case, writer: &str, why: String, model: &str, imp: &str, do_shrink: bool) {
+    rep.disagreements_checked += 1;
+    let mut min = case.clone();
+    let key = format!("{}/disagreement", writer);
+    let n = ctx.shrunk.entry(key).or_insert(0);
+    if do_shrink && *n < 2 {
+        *n += 1;
+        let env = &ctx.env;
+        let wd = rep.workdir.clone();
+        min = shrink(case, &mut |c: &Case| {
+            let o = observe(env, c, writer);
+            let m = run_model_named("gm_c13", &[request(env, writer, c)], &wd, "shrink");
+            o.ofails.is_empty() && agree(writer, &m[0], &o.canon, c).is_some()
+        });
+    }
+    let mut cj = case_json(&min, writer);
+    cj["model"] = json!(model);
+    cj["impl"] = json!(imp);
+    rep.fail(
+        "disagreement",
+        None,
+        format!("{} writer differs from Stats.{}: {} (theorems C13_{}_* no longer transfer)", writer, writer, why, writer),
+        cj,
+    );
+}
+
+fn tally(rep: &mut Report, case: &Case) {
+    rep.count(&format!("files={}", case.files.len().min(9)));
+    rep.count(&format!("precision={}", case.precision));
+    if case.branch {
+        rep.count("html.branch_enabled");
+    }
+    let depth = case.files.iter().map(|f| f.rel.matches('/').count()).max().unwrap_or(0);
+    rep.count(&format!("tree.max_depth={}", depth));
+    for f in &case.files {
+        if f.cov.lines.is_empty() {
+            rep.count("file.no_lines");
+        }
+        if f.cov.functions.is_empty() {
+            rep.count("file.no_functions");
+        }
+        if f.cov.branches.is_empty() {
+            rep.count("file.no_branches");
+        }
+        if f.rel_abs {
+            rep.count("file.absolute_rel_path");
+        }
+        if !f.exists {
+            rep.count("file.source_missing");
+        }
+        if !f.rel.contains('/') {
+            rep.count("file.in_root_dir");
+        }
+        if !f.cov.lines.is_empty() && f.cov.lines.values().all(|&n| n == 0) {
+            rep.count("file.nothing_covered");
+        }
+        if !f.cov.lines.is_empty() && f.cov.lines.values().all(|&n| n > 0) {
+            rep.count("file.fully_covered");
+        }
+    }
+}
+
+fn nontrivial(case: &Case) -> bool {
+    case.files.len() >= 2 || case.files.iter().any(|f| f.cov.lines.is_empty())
+}
+
+pub fn run(rep: &mut Report) {
+    rep.rule = "result sets of 0..9 files in generated directory trees (depth 0..6, shared and distinct \
+                directories, relative and absolute rel_path, existing and missing sources), records with 0..12 \
+                lines (none / all / some covered), 0..4 branch lines, 0..4 functions; precision 0..4; every set \
+                goes through lcov, covdir, cobertura, markdown, ade (and html for a share). non-trivial = at least \
+                two files (a level that sums children) or a file without lines (zero total); distinct = distinct \
+                canonical request text"
+        .to_string();
+    let mut ctx = Ctx {
+        env: Env::new(&rep.workdir),
+        shrunk: BTreeMap::new(),
+    };
+    let mut rng = Rng::new(rep.seed ^ 0xC13);
+    let n = rep.budget(2_500, 10);
+    let html_every = 4;
+    let mut reqs: Vec<String> = vec![];
+    let mut pend: Vec<(usize, &'static str, String, bool)> = vec![]; // case index, writer, impl canon, oracle failed
+    let mut cases: Vec<Case> = vec![];
+    for i in 0..n {
+        let case = gen_case(&mut rng);
+        tally(rep, &case);
+        for &w in WRITERS {
+            if w == "html" && i % html_every != 0 {
+                continue;
+            }
+            let o = observe(&ctx.env, &case, w);
+            let req = request(&ctx.env, w, &case);
+            rep.case(&req, nontrivial(&case));
+            rep.count(&format!("writer.{}", w));
+            if o.canon.starts_with("panic") {
+                rep.count("outcome.panic");
+            }
+            if !o.ofails.is_empty() {
+                report_ofails(rep, &mut ctx, &case, w, &o.ofails, true);
+            }
+            pend.push((cases.len(), w, o.canon, !o.ofails.is_empty()));
+            reqs.push(req);
+        }
+        cases.push(case);
+    }
+
+    // boundary stream: line 0 (covdir: `line_num - 1`) and line 2^32-1 (cobertura, ade: `last + 1`)
+    let nb = rep.budget(60, 5);
+    for i in 0..nb {
+        let mut case = gen_case(&mut rng);
+        if case.files.is_empty() {
+            continue;
+        }
+        let k = rng.below(case.files.len() as u64) as usize;
+        let ws: &[&'static str] = if i % 2 == 0 {
+            case.files[k].cov.lines.insert(0, rng.below(2));
+            &["covdir", "lcov", "markdown", "cobertura", "ade"]
+        } else {
+            case.files[k].cov.lines.insert(u32::MAX, rng.below(2));
+            &["cobertura", "ade", "lcov", "markdown"]
+        };
+        for &w in ws {
+            let o = observe(&ctx.env, &case, w);
+            let req = request(&ctx.env, w, &case);
+            rep.case(&req, true);
+            rep.count(&format!("boundary.{}.{}", if i % 2 == 0 { "line0" } else { "line_u32max" }, w));
+            if o.canon.starts_with("panic") {
+                rep.count("outcome.panic");
+            }
+            if !o.ofails.is_empty() {
+                report_ofails(rep, &mut ctx, &case, w, &o.ofails, true);
+            }
+            pend.push((cases.len(), w, o.canon, !o.ofails.is_empty()));
+            reqs.push(req);
+        }
+        cases.push(case);
+    }
+
+    let model = run_model_named("gm_c13", &reqs, &rep.workdir, "c13");
+    let mut sampled = std::collections::BTreeSet::new();
+    for (j, (ci, w, canon, oracle_failed)) in pend.iter().enumerate() {
+        if (1..=2).contains(&cases[*ci].files.len()) && rep.samples.len() < 4 && sampled.insert(*w) {
+            rep.sample(json!({"request": reqs[j], "impl": canon, "model": model[j]}));
+        }
+        if model[j] == "panic" {
+            rep.count("model.panic");
+        }
+        if let Some(why) = agree(w, &model[j], canon, &cases[*ci]) {
+            if *oracle_failed {
+                // the failing input was already reported by the oracle
+                rep.disagreements_checked += 1;
+                continue;
+            }
+            let case = cases[*ci].clone();
+            disagreement(rep, &mut ctx, &case, w, why, &model[j], canon, true);
+        }
+    }
+}
+
+pub fn replay(rep: &mut Report, case: &serde_json::Value) {
+    let Some((c, writer)) = case_from_json(case) else {
+        rep.notes.push("replay file has no C13 case".into());
+        return;
+    };
+    let mut ctx = Ctx {
+        env: Env::new(&rep.workdir),
+        shrunk: BTreeMap::new(),
+    };
+    let Some(w) = WRITERS.iter().find(|w| **w == writer).copied() else {
+        rep.notes.push(format!("unknown writer {:?}", writer));
+        return;
+    };
+    let o = observe(&ctx.env, &c, w);
+    let req = request(&ctx.env, w, &c);
+    rep.case(&req, true);
+    let m = run_model_named("gm_c13", &[req.clone()], &rep.workdir, "replay");
+    rep.sample(json!({"request": req, "impl": o.canon, "model": m[0]}));
+    if !o.ofails.is_empty() {
+        report_ofails(rep, &mut ctx, &c, w, &o.ofails, false);
+    } else if let Some(why) = agree(w, &m[0], &o.canon, &c) {
+        disagreement(rep, &mut ctx, &c, w, why, &m[0], &o.canon, false);
+    }
+}
 
 fn main() {
     corrlib::run_main("C13", run, replay);
